@@ -31,7 +31,7 @@ input -> Input: stmt+ ;
 stmt -> Stmt:
     x xopt ';'                        { use(${x.offset}) }
   | 'c' x y { mid($x, $y) } ',' 'c'   -> First
-  | 'd' x y { mid($x, $y) } ',' 'd'   -> Second
+  | 'c' x y { mid($x, $y) } ',' 'd'   -> Second
   | 'e' x yopt ';'                    { use2(${x.offset}, ${y.offset}) }
 ;
 
